@@ -520,12 +520,16 @@ def lib_sign(b, key, p, now, request_mac, tsig_ctx, multi, via="lib"):
     return w, ctx_out, (rec[0] if rec else None)
 
 
-def lib_read(w, keyring, now, request_mac, tsig_ctx, multi):
-    """from_wire under the fixed clock; returns (message or None, exception or None, hmac log of the call)"""
+def lib_read(w, keyring, now, request_mac, tsig_ctx, multi, origin=None, coe=False):
+    """from_wire under the fixed clock; returns (message or None, exception or None, hmac log of the call).
+    With continue_on_error the first recorded error stands for the exception."""
     CLOCK.t = now
     n0 = len(SHIM.log)
     try:
-        m = dns.message.from_wire(w, keyring=keyring, request_mac=request_mac, tsig_ctx=tsig_ctx, multi=multi)
+        m = dns.message.from_wire(w, keyring=keyring, request_mac=request_mac, tsig_ctx=tsig_ctx, multi=multi, origin=origin,
+                                  continue_on_error=coe)
+        if coe and m.errors:
+            return None, m.errors[0].exception, SHIM.log[n0:]
         return m, None, SHIM.log[n0:]
     except BaseException as e:  # classified by the caller
         return None, e, SHIM.log[n0:]
@@ -745,6 +749,59 @@ def forge_mac(w, t, newmac):
     return w[:rd - 2] + struct.pack("!H", len(rdata)) + rdata
 
 
+def keyring_forms(key):
+    """the same key in every form a keyring can take"""
+    text = dns.tsigkeyring.from_text(dns.tsigkeyring.to_text({key.name: key}))
+    return [("key", key), ("dict-bytes", {key.name: key.secret}), ("dict-key", {key.name: key}),
+            ("callable", CallKR({key.name: key})), ("from_text", text)]
+
+
+def origins_for(key, w, pick):
+    """origins that put the key name at, below, above and beside the origin, plus the question name and the root"""
+    kn = key.name
+    cands = [kn, dns.name.root, dns.name.from_text("unrelated.test.")]
+    if len(kn.labels) > 2:
+        cands.append(kn.parent())
+        cands.append(dns.name.Name(kn.labels[-2:]))
+    cands.append(dns.name.Name([b"below"] + list(kn.labels)))
+    try:
+        qn, _ = ref_name(w, 12)
+        if struct.unpack("!H", w[4:6])[0]:
+            cands.append(dns.name.Name(qn))
+    except RefError:
+        pass
+    k = len(cands)
+    return [cands[pick % k], cands[(pick // 7 + 1) % k]]
+
+
+def origin_reads(ctx, c, rep, w, key, now, rm, tsig_ctx, multi, what, pick):
+    """the parsing option `origin=` (how zone-transfer envelopes are read) x every keyring form x continue_on_error:
+    a genuine message verifies and the TSIG state it leaves is what it is without an origin.  The model's reader has
+    no origin parameter at all, so the same correspondence line as without origin is demanded."""
+    base, be, _ = lib_read(w, key, now, rm, copy.deepcopy(tsig_ctx), multi)
+    if be is not None or not base.had_tsig:
+        return
+    for o in origins_for(key, w, pick):
+        for j, (form, kr) in enumerate(keyring_forms(key)):
+            coe = bool((pick + j) & 1)
+            cin = copy.deepcopy(tsig_ctx)
+            line_in = e_ctx(cin)
+            m2, e, log = lib_read(w, kr, now, rm, cin, multi, origin=o, coe=coe)
+            corr_read(ctx, c, w, kr, now, rm, line_in, multi, m2, e, log)
+            ctx.count(f"origin.{form}." + ("ok" if e is None else type(e).__name__))
+            tag = f"{form}/{'coe' if coe else 'strict'}"
+            if e is not None:
+                fail(ctx, f"C14/validate/genuine-rejected/origin/{form}",
+                     f"{what}: a genuine signed message read with origin={o} and a {form} keyring (continue_on_error={coe}) is rejected: {e!r}", rep | {"origin": str(o)})
+                continue
+            same = (m2.had_tsig and m2.keyname == base.keyname and m2.keyname.is_absolute() and m2.keyname.labels == base.keyname.labels
+                    and m2.mac == base.mac and m2.keyalgorithm == base.keyalgorithm and e_rdata(m2.tsig[0]) == e_rdata(base.tsig[0])
+                    and e_ctx(m2.tsig_ctx) == e_ctx(base.tsig_ctx))
+            if not same:
+                fail(ctx, f"C14/from_wire/origin/tsig-state-differs/{form}",
+                     f"{what}: with origin={o} ({tag}) the parsed TSIG state (key name, MAC, rdata, next context) differs from the one without origin", rep | {"origin": str(o)})
+
+
 def extra_routes(ctx, c, rep, w, t, key, keyring, p, now, rm):
     """routes and option values around one genuine signed message `w` (only when it reports no TSIG error):
     keyring=True/False, continue_on_error, shortened / emptied / lengthened MAC fields, a second to_wire of the same
@@ -752,6 +809,8 @@ def extra_routes(ctx, c, rep, w, t, key, keyring, p, now, rm):
     if p.get("error", 0) != 0:
         return
     sel = c.get("routes", 0)
+    if sel & 16:
+        origin_reads(ctx, c, rep, w, key, now, rm, None, False, f"{key.algorithm}", c["now"] + len(w))
     # keyring=True is "no keyring" (signed messages must fail); keyring=False switches validation off
     if sel & 1:
         for kr in (True, False):
@@ -952,6 +1011,8 @@ def eval_seq(ctx, c, rep):
             if collect:
                 corr_read(ctx, c, ws[i], key, now + i, rm, line_in, True, m2, e, log)
                 saved.append(copy.deepcopy(vctx))
+                if c.get("origin_route") and envs[i]["signed"] and e is None:
+                    origin_reads(ctx, c, rep, ws[i], key, now + i, rm, saved[-1], True, f"envelope {i} of {len(ws)} (multi)", c["now"] + i)
             if e is not None:
                 return i, e, None
             vctx = m2.tsig_ctx
@@ -1131,7 +1192,8 @@ def eval_exch(ctx, c, rep):
     qw = q.to_wire()
     qt = ref_tsig(qw)
     skr = mk_keyring(c["skeyring"], key)
-    sq, e, log = lib_read(qw, skr, now + c["d1"], b"", None, False)
+    so = None if not c.get("sorigin") else origins_for(key, qw, c["now"])[0]
+    sq, e, log = lib_read(qw, skr, now + c["d1"], b"", None, False, origin=so)
     corr_read(ctx, c, qw, skr, now + c["d1"], b"", "none", False, sq, e, log)
     if e is not None or not sq.had_tsig:
         fail(ctx, "C14/validate/genuine-rejected/query", f"server side: the signed query does not validate: {e!r}", rep)
@@ -1155,7 +1217,7 @@ def eval_exch(ctx, c, rep):
     CLOCK.t = now2
     n0 = len(SHIM.log)
     try:
-        rw = r.to_wire()
+        rw = r.to_wire(origin=so)   # (make_response does not carry the query's origin over; the question is relative to it)
     except BaseException as e:
         fail(ctx, "C14/make_response/to_wire-raises:" + type(e).__name__, f"rendering the response raised {e!r}", rep)
         return
@@ -1367,7 +1429,7 @@ def gen_exch(rng, flips=None):
     c = {"kind": "exch", "key": key, "body": body, "answers": answers, "now": gen_now(rng) + 70000, "qfudge": qf, "rfudge": rf,
          "skeyring": rng.choice(["key", "dict-key", "dict-bytes", "callable"]),
          "d1": rng.choice([0, qf, 0]), "d2": rng.choice([0, 1, 5]), "d3": rng.choice([0, eff, -eff if eff < 1000 else 0, 0]),
-         "rerror": rng.choice([0, 0, 0, 0, 0, 18, 16, 17])}
+         "rerror": rng.choice([0, 0, 0, 0, 0, 18, 16, 17]), "sorigin": rng.chance(1, 3)}
     if flips:
         c["flips"] = flips
     return c
@@ -1416,7 +1478,7 @@ def gen_msg(rng, flips, alg=None):
          "keyring": rng.choice(["key", "key", "dict-key", "dict-bytes", "callable"]),
          "deltas": sorted(set([0, rng.choice([f, -f]), rng.choice([f + 1, -f - 1])])),
          "signer": rng.choice(["lib", "lib", "lib", "ref", "renderer"]),
-         "routes": rng.choice([0, 1, 2, 4, 8, 8, 3, 15])}
+         "routes": rng.choice([0, 1, 2, 4, 8, 8, 3, 15]) | (16 if rng.chance(1, 2) else 0)}
     if flips:
         c["flips"] = flips
     return c
@@ -1472,7 +1534,7 @@ def gen_seq(rng, flips_budget=0):
     p = {"fudge": rng.choice([300, 300, 5, 65535])}
     c = {"kind": "seq", "key": key, "tsig": p, "now": gen_now(rng) + 70000, "envs": envs,
          "request_mac": rng.bytes(rng.choice([16, 32, 64])).hex() if rng.chance(3, 4) else "",
-         "signer": rng.choice(["lib", "lib", "ref", "renderer"])}
+         "signer": rng.choice(["lib", "lib", "ref", "renderer"]), "origin_route": rng.chance(1, 3)}
     if flips_budget:
         fl = []
         for _ in range(2):
